@@ -116,6 +116,35 @@ theorem inverter_unique_shared {c c1 : Circ} {s : String} {r1 : Ref}
     have h2 := hk s k hk1
     simp [validateBlk, validateName, findblock, h2, e]
 
+/-- `inverter_target_is_suffix`: the block an automatic inverter is connected to is named by
+    EXACTLY the characters after the five-character prefix `_not_` -- nothing more is stripped,
+    whatever the name begins with (`_not_tx` inverts `tx`, never `x`; `_not_north` inverts `north`) -/
+theorem inverter_target_is_suffix (s t : String) :
+    notTarget? s = some t ↔ s = "_not_" ++ t ∧ startsUnderscore t = false := by
+  constructor
+  · intro h
+    refine ⟨?_, notTarget_noUnderscore h⟩
+    unfold notTarget? at h
+    split at h
+    · next rest hs =>
+      split at h
+      · cases h
+      · cases h
+        apply String.toList_injective
+        rw [hs, String.toList_append, String.toList_ofList]
+        simp
+    · cases h
+  · rintro ⟨rfl, hu⟩
+    unfold notTarget?
+    have : ("_not_" ++ t).toList = '_' :: 'n' :: 'o' :: 't' :: '_' :: t.toList := by
+      rw [String.toList_append]; rfl
+    rw [this]
+    simp only
+    unfold startsUnderscore at hu
+    split
+    · next x tl hx => rw [hx] at hu; simp at hu
+    · simp [String.ofList_toList]
+
 /-- a duplicate of an existing name (hence a second inverter) is always refused -/
 theorem duplicate_name_refused (c : Circ) (n : String) (k : BKind) (r : Bool)
     (h : (c.kind n).isSome) : ∃ e, addBlock c n k r = .error e := by
